@@ -1,0 +1,24 @@
+//go:build verif
+
+package broker
+
+// VerifTokens reports the free and total dequeue, publish and subscribe tokens
+// of the client (verification hook, compiled only with the verif build tag).
+func (c *Client) VerifTokens() (dequeueFree, dequeueCap, publishFree, publishCap, subscribeFree, subscribeCap int) {
+	return len(c.dequeueTokens), cap(c.dequeueTokens),
+		len(c.publishTokens), cap(c.publishTokens),
+		len(c.subscribeTokens), cap(c.subscribeTokens)
+}
+
+// VerifSnapshot reports the sizes of the backend's bookkeeping under its own
+// global mutex (verification hook, compiled only with the verif build tag).
+func (m *MemoryBackend) VerifSnapshot() (activeClients, temporarySessions, storedSessions, storedWithActiveClient int) {
+	m.globalMutex.Lock()
+	defer m.globalMutex.Unlock()
+	for _, sess := range m.storedSessions {
+		if sess.activeClient != nil {
+			storedWithActiveClient++
+		}
+	}
+	return len(m.activeClients), len(m.temporarySessions), len(m.storedSessions), storedWithActiveClient
+}
